@@ -31,7 +31,7 @@ hlib.encoded(hs.read_range, hs._ReadRangeProducer.resumeProducing, hs._ReadRange
              sc._FakeRemoteReference.callRemote, sc._StorageServer.get_buckets, sc._StorageServer.slot_readv,
              server_mod.FoolscapStorageServer.remote_get_buckets, server_mod.FoolscapStorageServer.remote_slot_readv,
              imm.FoolscapBucketReader.remote_read, imm.BucketReader.read, imm.BucketReader.get_length,
-             X.SS.get_shares, X.SS.get_mutable_share_length, X.SS.enumerate_mutable_shares)
+             X.SS.get_buckets, X.SS.get_shares, X.SS.slot_readv, X.SS.get_mutable_share_length, X.SS.enumerate_mutable_shares)
 
 RS, CS = X.tok("R", 1), X.tok("C", 1)
 _ILEASES = [X.ilease_rec(1, X.hashed(2, X.tok("r", i)), X.hashed(2, X.tok("c", i)), 1000 + i) for i in range(2)]
@@ -134,20 +134,20 @@ def _h_read_immutable(dlen, nl, other, off, ln, p):
 
 # ---- range reads of mutable shares (slot_readv) -------------------------------------------------------------------------
 
-def _mut_state(dl, elo, has2):
+def _mut_state(dl, elo, has2, other=2):
     X.reset()
     FS.split_hint = DATA_OFFSET
     X.mk_mutable(X.share_path(0), dl, elo, list(_SLOTS), [])
     if has2:
-        X.mk_mutable(X.share_path(2), 5, DATA_OFFSET + 9, list(_SLOTS), [])
+        X.mk_mutable(X.share_path(other), 5, DATA_OFFSET + 9, list(_SLOTS), [])
     FS.fileutil.avail = 10 ** 12
 
 
-_SHARE_ARGS = [[0], [], [2, 0], [0, 1]]          # [] = every share; 1 never exists
+_SHARE_ARGS = [[0], [], [2, 0], [0, 1]]          # [] = every share; the second share (if any) is number 2, in the last mode number 1
 
 
 def _cls_readv(mode, has2, ln_min):
-    if mode == 3 or (mode == 2 and not has2):
+    if mode >= 2 and not has2:
         return "readv-names-missing-share"
     if ln_min == 0:
         return "zero-length-read"
@@ -156,9 +156,8 @@ def _cls_readv(mode, has2, ln_min):
 
 def h_read_mutable(dl: int, elo: int, has2: bool, mode: int, nv: int, o1: int, l1: int, o2: int, l2: int, p: int) -> bool:
     """
-    pre: X.mutable_inv(dl, elo) and dl <= B["size_max"] and mode == B["mode"] and nv == B["nv"]
+    pre: X.mutable_inv(dl, elo) and dl <= B["size_max"]
     pre: 0 <= o1 and B["ln_min"] <= l1 <= B["ln_max"] and 0 <= o2 and B["ln_min"] <= l2 <= B["ln_max"] and 0 <= p
-    pre: B.get("has2") is None or has2 == (B["has2"] == 1)
     post: _ == True
     """
     return X.guard(_h_read_mutable, dl, elo, has2, mode, nv, o1, l1, o2, l2, p)
@@ -173,10 +172,11 @@ def _h_read_mutable(dl, elo, has2, mode, nv, o1, l1, o2, l2, p):
     if B.get("second") is not None:                # concrete second read vector
         (o2, l2) = B["second"]
     readv = [(o1, l1), (o2, l2)][:nv]
+    other = 1 if mode == 3 else 2
     assume(_cls_readv(mode, has2, l1 if nv == 1 or l1 < l2 else l2) not in EXCLUDED)
     res = {}
     for name in ("http", "direct"):
-        _mut_state(dl, elo, has2)
+        _mut_state(dl, elo, has2, other)
         w = World()
         res[name] = _outcome(getattr(w, name).slot_readv(X.SI, list(_SHARE_ARGS[mode]), list(readv)))
         if FS.nops != 0:
@@ -184,7 +184,7 @@ def _h_read_mutable(dl, elo, has2, mode, nv, o1, l1, o2, l2, p):
     (kd, vd), (kh, vh) = res["direct"], res["http"]
     if kd != "ok":
         return "direct slot_readv failed"
-    want_keys = [n for n in ((0, 2) if has2 else (0,)) if (mode == 1 or n in _SHARE_ARGS[mode])]
+    want_keys = [n for n in ((0, other) if has2 else (0,)) if (mode == 1 or n in _SHARE_ARGS[mode])]
     if sorted(vd.keys()) != want_keys:
         return "direct slot_readv did not answer for exactly the existing shares among those named"
     if kh != "ok":
@@ -215,7 +215,7 @@ hlib.encoded(hs.HTTPServer.allocate_buckets, hs.HTTPServer.write_share_data, hs.
              hc.StorageClientImmutables._write_share_chunk, sc._HTTPStorageServer.allocate_buckets, sc._HTTPBucketWriter.write,
              sc._HTTPBucketWriter.close, sc._StorageServer.allocate_buckets, server_mod.FoolscapStorageServer.remote_allocate_buckets,
              imm.FoolscapBucketWriter.remote_write, imm.FoolscapBucketWriter.remote_close, imm.BucketWriter.write,
-             imm.BucketWriter.close, imm.BucketWriter._is_finished, imm.BucketWriter.required_ranges)
+             imm.BucketWriter.close, imm.BucketWriter._is_finished, imm.BucketWriter.required_ranges, X.SS.allocate_buckets)
 
 
 class _Canary(object):
@@ -325,7 +325,7 @@ def _upload(side_name, size, chunks, has1, do_close):
         if box and isinstance(box[0], L.Failure):
             L._raise_if_control(box[0])
             closed = "failed"
-    visible = sorted(fired(side.get_buckets(X.SI)).keys())
+    visible = [n for n in (0, 1) if FS.os.path.isfile(X.share_path(n))]        # (listing itself: read_immutable / list_lease)
     return alloc, outs, closed, visible, rec, snapshot()
 
 
@@ -347,26 +347,31 @@ def _chunks(n, o1, l1, o2, l2, b2, o3, l3, b3):
 
 def h_upload(size: int, n: int, o1: int, l1: int, o2: int, l2: int, b2: bool, o3: int, l3: int, b3: bool, has1: bool, p: int) -> bool:
     """
-    pre: 1 <= size <= B["size_max"] and n == B["n"] and 0 <= p
+    pre: 1 <= size <= B["size_max"] and 0 <= p
     pre: 0 <= o1 and B["ln_min"] <= l1 <= B["ln_max"] and 0 <= o2 and B["ln_min"] <= l2 <= B["ln_max"] and 0 <= o3 and B["ln_min"] <= l3 <= B["ln_max"]
-    pre: (B.get("has1") is None or has1 == (B["has1"] == 1)) and (B.get("conflict") is None or (b2 or b3) == (B["conflict"] == 1))
     pre: B.get("shape") is None or _shape(o1, l1, o2, l2) == B["shape"]
+    pre: B.get("l1_min") is None or l1 >= B["l1_min"]
     post: _ == True
     """
     return X.guard(_h_upload, size, n, o1, l1, o2, l2, b2, o3, l3, b3, has1, p)
 
 
 def _shape(o1, l1, o2, l2):
-    """relative position of the first two chunks: 0 second entirely before, 1 overlapping / touching, 2 second entirely after"""
+    """relative position of the first two chunks: 0 second entirely before the first (a gap between them), 2 entirely after;
+    overlapping or touching: 10 + (2 if the second starts after the first starts) + (1 if the second ends after the first ends)"""
     if o2 + l2 < o1:
         return 0
     if o1 + l1 < o2:
         return 2
-    return 1
+    return 10 + (2 if o2 > o1 else 0) + (1 if o2 + l2 > o1 + l1 else 0)
 
 
 def _h_upload(size, n, o1, l1, o2, l2, b2, o3, l3, b3, has1, p):
-    n = _pin(n, 1, 3)
+    n = B["n"]
+    if B.get("has1") is not None:
+        has1 = bool(B["has1"])
+    if B.get("conflict") is not None:
+        (b2, b3) = (bool(B["conflict"]), bool(B["conflict"]) and n >= 3 and b3)
     chunks = _chunks(n, o1, l1, o2, l2, b2, o3, l3, b3)
     assume(_cls_upload(size, chunks) not in EXCLUDED)
     verdicts, accepted = _model_upload(size, chunks)
@@ -420,12 +425,11 @@ def _h_upload(size, n, o1, l1, o2, l2, b2, o3, l3, b3, has1, p):
 
 
 # ---- read-test-write ------------------------------------------------------------------------------------------------------
-# self.log("testv failed: [%d]: %r" % (sharenum, testv)) formats the (symbolic) test vector: log statements of these methods are cut
-# (cut in _httploop.py together with the other log statements of the StorageServer entry points)
+# (the log statements of _evaluate_test_vectors/_evaluate_write_vectors, which format the symbolic vectors, are cut in _httploop.py)
 hlib.encoded(hs.HTTPServer.mutable_read_test_write, hc.StorageClientMutables.read_test_write_chunks,
              hc.StorageClientMutables._read_test_write_chunks, hc.TestWriteVectors.asdict,
              sc._HTTPStorageServer.slot_testv_and_readv_and_writev, sc._StorageServer.slot_testv_and_readv_and_writev,
-             server_mod.FoolscapStorageServer.remote_slot_testv_and_readv_and_writev,
+             server_mod.FoolscapStorageServer.remote_slot_testv_and_readv_and_writev, X.SS.slot_testv_and_readv_and_writev,
              X.SS._collect_mutable_shares_for_storage_index, X.SS._evaluate_read_vectors,
              X.SS._add_or_renew_leases, X.SS._make_lease_info)
 
@@ -455,6 +459,7 @@ def h_rtw(dl: int, elo: int, has2: bool, good_we: bool, renewing: bool, tl: int,
     """
     pre: X.mutable_inv(dl, elo) and dl <= B["size_max"]
     pre: 0 <= tl and 0 <= so and 0 <= sl and 0 <= wo and 0 <= wl and wo + wl <= MAX_SIZE and 0 <= newlen and 0 <= ro and 0 <= rl and 0 <= p
+    pre: B.get("wshape") is None or _wshape(dl, wo, wl) == B["wshape"]
     post: _ == True
     """
     return X.guard(_h_rtw, dl, elo, has2, good_we, renewing, tl, so, sl, wo, wl, nlkind, newlen, create1, ro, rl, p)
@@ -972,7 +977,10 @@ def _h_client_read_chunk(code_k, ct, cr, start, stop, blen, offset, length, muta
 
 
 CLASSIFY = {
-    "h_upload": lambda size, n, o1, l1, o2, l2, b2, o3, l3, b3, has1, p: _cls_upload(size, _chunks(n, o1, l1, o2, l2, b2, o3, l3, b3)),
+    "h_upload": lambda size, n, o1, l1, o2, l2, b2, o3, l3, b3, has1, p: _cls_upload(size, _chunks(
+        B["n"], o1, l1, o2, l2, bool(B["conflict"]) if B.get("conflict") is not None else b2, o3, l3,
+        (bool(B["conflict"]) and B["n"] >= 3 and b3) if B.get("conflict") is not None else b3)),
     "h_read_immutable": lambda dlen, nl, other, off, ln, p: "zero-length-read" if ln == 0 else "other",
-    "h_read_mutable": lambda dl, elo, has2, mode, nv, o1, l1, o2, l2, p: _cls_readv(mode, has2, min([l1, l2][:nv])),
+    "h_read_mutable": lambda dl, elo, has2, mode, nv, o1, l1, o2, l2, p: _cls_readv(
+        B["mode"], bool(B["has2"]) if B.get("has2") is not None else has2, min([l1, (B.get("second") or [0, l2])[1]][:B["nv"]])),
 }
